@@ -6,12 +6,13 @@ export GOFLAGS=-mod=mod GOPROXY=off GOSUMDB=off GOTOOLCHAIN=local
 seed=$1; x=${seed##*-}; patch=${2:-/verif/seeded/$seed/patch.diff}
 wt=/tmp/verif-confirm-$seed-$$; log=/tmp/verif-confirm-$seed.log
 git -C /repo worktree add -q --detach $wt HEAD || exit 9
-mkdir -p $wt/_seed/$x; cp -r /verif/seeded/$seed/* $wt/_seed/$x/
+mkdir -p $wt/_seed/$x; cp -r /verif/seeded/$seed/* $wt/_seed/$x/; cp -r /verif/seeded/$seed/* $wt/_seed/   # both layouts: _seed/<x>/... (round 1) and _seed/... (round 2)
 cd $wt
-timeout 900 bash _seed/$x/run.sh > $log.base 2>&1; base=$?
+RUN=_seed/$x/run.sh; case "$x" in a|b) ;; *) RUN=_seed/run.sh;; esac   # round-2 seeds expect their files directly under _seed/
+timeout 900 bash $RUN > $log.base 2>&1; base=$?
 git checkout -q -- . ; git clean -fdq -e _seed
 git apply $patch; ap=$?
-timeout 900 bash _seed/$x/run.sh > $log.patched 2>&1; pat=$?
+timeout 900 bash $RUN > $log.patched 2>&1; pat=$?
 git clean -fdq -e _seed
 go build ./... > $log.build 2>&1; b=$?
 suite=$(python3 /verif/tools/repo_tests.py $wt | head -1)
